@@ -15,7 +15,7 @@ M_, HA_, EE_, TRE_, AFE_ = 0, 17, 25, 28, 29
 
 
 def mk_sd(ispriv, iswrite, n_fixed=None, remap='sym', arch=7, sec=True, ee_sym=True, ttbr_mask=0xFFFFFFFF,
-          l1type=None, l2type=None):
+          l1type=None, l2type=None, ttbr=None):
     """l1type / l2type: case split on the type bits [1:0] of the first / second level descriptor the walk reads (the
     cases together are all descriptors; they run as separate units in parallel)"""
     def fn(env):
@@ -36,6 +36,8 @@ def mk_sd(ispriv, iswrite, n_fixed=None, remap='sym', arch=7, sec=True, ee_sym=T
         o = vmsa.translate_v_sd(m.pre, VA, z3.BoolVal(ispriv), z3.BoolVal(iswrite))
         env.assume(z3.Not(o['unpred']))
         env.assume(z3.Not(o['hw_af_update']))
+        if ttbr is not None:  # case split: the walk goes through TTBR0 / TTBR1
+            env.assume(o['use0'] == (ttbr == 0))
         if l1type is not None:
             env.assume(o['l1type'] == l1type)
         if l2type is not None:
@@ -218,10 +220,22 @@ def units(tier, seed=0):
         for iswrite in (False, True):
             tag = '%s/%s' % ('priv' if ispriv else 'user', 'w' if iswrite else 'r')
             if tier == 'quick':
-                for n in ((0, 2) if (not ispriv and iswrite) else (0,)):
-                    us += split_sd('sd_walk/N%d/%s' % (n, tag),
-                                   dict(ispriv=ispriv, iswrite=iswrite, n_fixed=n, remap=INJECTIVE, ee_sym=False,
+                # N = 0 for two of the four (privilege, direction) cases, N = 2 (TTBR0/TTBR1 split) for user writes,
+                # the walk through each TTBR being its own unit
+                if (ispriv, iswrite) in ((False, False), (True, True)):
+                    us += split_sd('sd_walk/N0/%s' % tag,
+                                   dict(ispriv=ispriv, iswrite=iswrite, n_fixed=0, remap=INJECTIVE, ee_sym=False,
                                         ttbr_mask=0xFFFFFF80), max_paths=500000, max_seconds=3000, weight=10)
+                if (ispriv, iswrite) == (False, True):
+                    for tb in (0, 1):
+                        us += split_sd('sd_walk/N2/ttbr%d/%s' % (tb, tag),
+                                       dict(ispriv=ispriv, iswrite=iswrite, n_fixed=2, remap=INJECTIVE, ee_sym=False,
+                                            ttbr_mask=0xFFFFFF80, ttbr=tb), max_paths=500000, max_seconds=3000,
+                                       weight=10)
+                if (ispriv, iswrite) == (True, False):
+                    us += split_sd('sd_walk/N1/ttbr1/%s' % tag,
+                                   dict(ispriv=ispriv, iswrite=iswrite, n_fixed=1, remap=INJECTIVE, ee_sym=False,
+                                        ttbr_mask=0xFFFFFF80, ttbr=1), max_paths=500000, max_seconds=3000, weight=10)
             else:
                 for n in (0, 1, 2, 7):
                     us += split_sd('sd_walk/N%d/ee-sym/%s' % (n, tag),
@@ -324,7 +338,7 @@ META = {
                    'MAIR attribute decode and shareability are compared with the B3.19.6 TranslationTableWalkLD oracle; '
                    'a translation succeeds exactly when the oracle reports no fault.',
     'bounds': ['short-descriptor format, stage 1, SCTLR.TRE = 1, hardware access-flag update off',
-               'quick: TTBCR.N in {0,2}, SCTLR.EE = 0, one injective PRRR/NMRR setting, TTBR attribute bits [6:0] fixed; thorough: N in {0,1,2,7} with EE symbolic, PRRR/NMRR fully symbolic for N = 0, and a no-security-extension configuration',
+               'quick: TTBCR.N = 0 (user reads, privileged writes), N = 2 (user writes, one unit per TTBR), N = 1 through TTBR1 (privileged reads), SCTLR.EE = 0, one injective PRRR/NMRR setting, TTBR attribute bits [6:0] fixed; thorough: N in {0,1,2,7} with EE symbolic, PRRR/NMRR fully symbolic for N = 0, and a no-security-extension configuration',
                'long-descriptor format: stage 1 at PL1&0 and the Hyp-mode stage 1 (HTTBR/HTCR/HMAIRn; Hyp-mode AP/PXN/nG '
                'settings the architecture calls UNPREDICTABLE excluded), no stage 2, FCSE PID = 0; each unit pins '
                'T0SZ/T1SZ (quick: 8 pairs; thorough: all 64 pairs for walks ending at their first level, 8 pairs for '
